@@ -282,4 +282,40 @@ theorem heightfield2_hist_contains (ss : List (V2 K)) :
     refine ih _ _ _ hnz (fun t ht => hs t (by simp [ht])) ?_
     rw [e]; exact aabb2_scaled_contains sq b s p h
 
+/-! ## ConvexPolygon box (2-D): exact -/
+
+/-- every face coordinate of `b` is the coordinate of some point of `L` -/
+def Attained2 (L : List (V2 K)) (b : Aabb2 K) : Prop :=
+  (∃ w ∈ L, w.x = b.maxs.x) ∧ (∃ w ∈ L, w.x = b.mins.x) ∧ (∃ w ∈ L, w.y = b.maxs.y) ∧ (∃ w ∈ L, w.y = b.mins.y)
+
+private theorem grow2_attained (L : List (V2 K)) (b : Aabb2 K) (w : V2 K) (hw : w ∈ L) :
+    Attained2 L b → Attained2 L (grow2 sq b w) := by
+  rintro ⟨a1, a2, a3, a4⟩
+  simp only [Attained2, grow2, V2.inf, V2.sup, fieldNum_nmin, fieldNum_nmax]
+  refine ⟨?_, ?_, ?_, ?_⟩
+  · rcases max_choice b.maxs.x w.x with e | e <;> rw [e]; exacts [a1, ⟨w, hw, rfl⟩]
+  · rcases min_choice b.mins.x w.x with e | e <;> rw [e]; exacts [a2, ⟨w, hw, rfl⟩]
+  · rcases max_choice b.maxs.y w.y with e | e <;> rw [e]; exacts [a3, ⟨w, hw, rfl⟩]
+  · rcases min_choice b.mins.y w.y with e | e <;> rw [e]; exacts [a4, ⟨w, hw, rfl⟩]
+private theorem foldl_grow2_attained (L : List (V2 K)) (ws : List (V2 K)) (hws : ∀ w ∈ ws, w ∈ L) :
+    ∀ b, Attained2 L b → Attained2 L (ws.foldl (grow2 sq) b) := by
+  induction ws with
+  | nil => intro b h; exact h
+  | cons w ws ih =>
+    intro b h
+    exact ih (fun v hv => hws v (List.mem_cons_of_mem _ hv)) _ (grow2_attained sq L b w (hws w (List.mem_cons_self ..)) h)
+
+/-- **`ConvexPolygon::aabb(pos)` is exact** (`point_cloud_aabb`): every face of the box carries the image of one of the
+polygon's points (with `polygon_aabb_contains`: the box is the least box around the posed polygon). -/
+theorem polygon_aabb_tight (m : Iso2 K) (p0 : V2 K) (ps : List (V2 K)) :
+    letI := fieldNum K sq
+    Attained2 ((p0 :: ps).map m.act) (pointCloudAabb2 m p0 ps) := by
+  have e : @pointCloudAabb2 K (fieldNum K sq) m p0 ps
+      = (ps.map (@Iso2.act K (fieldNum K sq) m)).foldl (grow2 sq) ⟨@Iso2.act K (fieldNum K sq) m p0, @Iso2.act K (fieldNum K sq) m p0⟩ := by
+    simp only [pointCloudAabb2, List.foldl_map]; rfl
+  rw [e]
+  refine foldl_grow2_attained sq _ _ (fun w hw => by simp only [List.map_cons, List.mem_cons]; exact Or.inr hw) _ ?_
+  have h0 : @Iso2.act K (fieldNum K sq) m p0 ∈ (p0 :: ps).map (@Iso2.act K (fieldNum K sq) m) := by simp
+  exact ⟨⟨_, h0, rfl⟩, ⟨_, h0, rfl⟩, ⟨_, h0, rfl⟩, ⟨_, h0, rfl⟩⟩
+
 end C09
